@@ -7,8 +7,9 @@ CONSTANTS
   MaxReload = 3
   MaxRestart = 2
   MaxScrape = 0
+  MaxTick = 2
   FileSel = {1, 2, 3}
-  FlowSel = {1, 2, 3, 4}
+  FlowSel = {1, 2, 3, 4, 5, 6}
   MaxCollect = 6
   GenDepth = 22
 INVARIANTS Emit Accept
